@@ -567,3 +567,8 @@ impl VerifyLayout {
         }
     }
 }
+
+#[cfg(kani)]
+mod verif_kani {
+    include!(concat!(env!("H33P_CGLUE_VERIF_DIR"), "/trait_group.rs"));
+}
